@@ -18,7 +18,7 @@ theorem init_codesBelow : CodesBelow ({} : MState).ss := by
 
 /-- … and is preserved by every operation. -/
 theorem step_codesBelow (s : MState) (op : Op) (h : CodesBelow s.ss) : CodesBelow (step s op).1.ss :=
-  step_preserves CodesBelow exec_CodesBelow (fun _ _ h => h) s op h
+  step_preserves CodesBelow exec_CodesBelow (fun _ _ h => h) (fun _ _ _ h => h) s op h
 
 /-- One step: whatever the request looks like, a redemption that returns tokens found the code
     record *active* and an exact (MAC-verified) copy of the code, and leaves the record inactive. -/
@@ -39,7 +39,7 @@ theorem redeem_success_needs_active_and_kills (s : MState) (q : RedeemReq) (a r 
 theorem dead_code_stays_dead (s : MState) (op : Op) (sig : Nat) (hb : CodesBelow s.ss) (hd : CodeDead s.ss sig) :
     CodeDead (step s op).1.ss sig :=
   (step_preserves (fun ss => CodesBelow ss ∧ CodeDead ss sig)
-    (fun ss c h => ⟨exec_CodesBelow ss c h.1, exec_CodeDead ss c sig h.1 h.2⟩) (fun _ _ h => h) s op ⟨hb, hd⟩).2
+    (fun ss c h => ⟨exec_CodesBelow ss c h.1, exec_CodeDead ss c sig h.1 h.2⟩) (fun _ _ h => h) (fun _ _ _ h => h) s op ⟨hb, hd⟩).2
 
 /-- Every later presentation of a used code is refused: after the code is dead, no operation of
     any history redeems it. -/
